@@ -346,7 +346,7 @@ func runC10(x *X) *Violation {
 				if strings.HasPrefix(a.Msg, "M") && len(a.Msg) <= 3 {
 					allFormatted = false // test-level Message: never reaches the execution formatter
 				}
-				if strings.HasPrefix(a.Msg, "pt-issue") {
+				if strings.HasPrefix(a.Msg, "pt-issue") || strings.HasPrefix(a.Msg, "MF:") || a.Msg == "RM" {
 					allFormatted = false
 				}
 			}
@@ -771,12 +771,12 @@ func runC11(x *X) *Violation {
 							cause = e
 						}
 						if cn := nodeByID(root, e.Node); cn != nil && e.Why == "test" && e.Idx < len(cn.Tests) {
-							if cn.Tests[e.Idx].Msg == a.Msg {
+							if cn.Tests[e.Idx].Msg == a.Msg || (cn.Tests[e.Idx].MsgFn && strings.HasPrefix(a.Msg, "MF:")) {
 								cause = e
 								break
 							}
-							if cn.Tests[e.Idx].Msg == "" {
-								if pc := nodeByID(root, cause.Node); cause.Why == "test" && pc.Tests[cause.Idx].Msg != "" {
+							if cn.Tests[e.Idx].Msg == "" && !cn.Tests[e.Idx].MsgFn {
+								if pc := nodeByID(root, cause.Node); cause.Why == "test" && (pc.Tests[cause.Idx].Msg != "" || pc.Tests[cause.Idx].MsgFn) {
 									cause = e
 								}
 							}
@@ -823,9 +823,23 @@ func runC11(x *X) *Violation {
 				}
 				continue
 			}
+			// the options given to Required()/NotNil() are that test's own options
+			if cause.Why == "required" && cn != nil && cn.ReqOpt != nil {
+				ts = cn.ReqOpt
+			}
 			// params: exactly the test's own
 			wantParams := ""
-			if ts != nil && ts.T != "custom" {
+			if ts != nil && len(ts.Params) > 0 {
+				m := map[string]any{}
+				for _, kv := range ts.Params {
+					m[kv.K] = kv.V.ToGo()
+				}
+				if a.Params != Canon(m) {
+					return &Violation{Class: fmt.Sprintf("C11/params-not-the-tests-own why=%s code=%s", cause.Why, codeClass(a.Code)),
+						Detail: fmt.Sprintf("issue %s carries params %s, the test was given Params(%s)", a.PCT(), a.Params, Canon(m))}
+				}
+				wantParams = "any"
+			} else if ts != nil && ts.T != "custom" && ts.T != "required" {
 				switch ts.T {
 				case "upper", "digit", "special", "email", "url", "uuid":
 				case "true", "false":
@@ -852,6 +866,11 @@ func runC11(x *X) *Violation {
 			case ts != nil && ts.Msg != "":
 				if a.Msg != ts.Msg {
 					return &Violation{Class: "C11/test-level-message-not-used", Detail: fmt.Sprintf("%s: want %q", a.Full(), ts.Msg)}
+				}
+				x.Probes["msg_test_level"]++
+			case ts != nil && ts.MsgFn:
+				if a.Msg != "MF:"+a.Code {
+					return &Violation{Class: "C11/test-level-message-func-not-used", Detail: a.Full()}
 				}
 				x.Probes["msg_test_level"]++
 			case stamp:
